@@ -11,11 +11,10 @@ From Zap Require Import Base.Wire Enc.Bytes Enc.Fields Enc.JsonEnc Enc.JsonParse
 Theorem C10_entry_still_valid : forall c ctxs ent fs,
   q_nil_caller_guard c = true -> q_layout_escaped c = true ->
   forallb wf_flds ctxs = true -> wf_flds fs = true -> wf_entry ent = true ->
-  owf_ctxs ctxs -> owf_flds fs -> rend_pre (t_rend (time_val ent)) ->
   exists out,
     encode_entry c false (with_chain c false ctxs) ent fs = Some out /\
     line_obj (resolved_le c) out = Some (jv_mem (entry_members c ctxs ent fs)).
-Proof. exact entry_valid. Qed.
+Proof. exact entry_valid_wf. Qed.
 Print Assumptions C10_entry_still_valid.
 
 (* ... and in those members a failing field shows up as exactly one extra '<key>Error' string member,
